@@ -1,3 +1,4 @@
+#include <cstring>
 // K-trace for the multigrid control flow (C10, C09b, C01, C13, C20): every operator call of setup()/solve()
 // is recorded through the guarded trace hook (H1) with the identity of its buffer arguments and compared,
 // as an exact string, with the sequence the Coq model (CycleDefs.v) produces for the same configuration.
@@ -126,11 +127,21 @@ static void run_trace_case(const Config& c, const char* tag) {
     apply_options(*s, c);
     try { s->setup(); } catch (const std::exception& e) { std::printf("# rejected by setup: %s\n", e.what()); return; }
     g_trace.clear();
+    // the level-1 right-hand side f_2h is half of the implicitly extrapolated system (4/3 (f_h - A_h u) - 1/3 (f_2h - A_2h u)): solve() only reads it
+    std::vector<double> f1_before;
+    if (c.extrap != 0 && Access::nlevels(*s) >= 2) { auto& f1 = Access::levels(*s)[1].rhs(); for (int i = 0; i < f1.size(); i++) f1_before.push_back(f1[i]); }
     gmgpolar_verif::trace_callback() = record;
     s->solve();
     gmgpolar_verif::trace_callback() = nullptr;
     int L = Access::nlevels(*s);
     std::printf("TR %s | %s => %s\n", cfg_string(c, L).c_str(), oracle(0).c_str(), render(*s, 0).c_str());
+    if (c.extrap != 0 && L >= 2) {
+        auto& f1 = Access::levels(*s)[1].rhs();
+        int bad = ((int)f1_before.size() == f1.size()) ? 0 : 1, where = -1;
+        for (int i = 0; !bad && i < f1.size(); i++) if (std::memcmp(&f1_before[i], &f1[i], sizeof(double)) != 0) { bad = 1; where = i; }
+        std::printf("PROP extrapolation-coarse-rhs-preserved %s levels=%d fmg=%d first_changed=%d => %s\n", tag, L, c.fmg ? 1 : 0, where,
+                    bad ? "FAIL solve() changed the level-1 right-hand side the extrapolated system is built from" : "ok");
+    }
     bool finite = true; for (int i = 0; i < s->solution().size(); i++) finite = finite && std::isfinite(s->solution()[i]);
     std::printf("PROP finite-solution %s => %s\n", tag, finite ? "ok" : "FAIL non-finite entries in the returned solution");
     stop_is_true(*s, c, 0, tag);
